@@ -548,6 +548,7 @@ func TestC11(t *testing.T) {
 		"distinct = distinct interleaving signatures")
 	rep.RuleAdd("Also: stale / nil targets, close order, partial drain after overflow, and a long-lived channel on which hundreds of items fail one by one (unencodable 255-byte raw items, ids above 255 on v1 links, single failing transport writes), each followed by a valid item. A steady flow on one healthy TCP link lasting five write timeouts.")
 	rep.RuleAdd("Rounds 12-15: bounded flow control, hundreds of failed items on one channel, writes in answer to open events, stalls of four write timeouts, net.ErrClosed write errors, forwarded frames with compatibility flags, close order with a stall longer than the write timeout.")
+	rep.RuleAdd("Rounds 16-17: refused items directly behind good ones on TCP; nodes with 300-380 channels; signed frames forwarded by nodes without a key.")
 	rep.Assume("channels that open or close during a call may or may not receive it; linearizability across goroutines is not demanded (only per-goroutine order is promised)")
 	seed := shardSeed()
 	n := vh.Pick(120, 600)
